@@ -3,14 +3,18 @@
 use std::path::Path;
 use verif_model::run::{self, Tier};
 
+mod c02;
 mod c04;
+mod c09;
+mod c15;
 mod common;
+mod conv;
 
 #[global_allocator]
 static ALLOC: verif_model::alloc::Shim = verif_model::alloc::Shim;
 
 fn properties() -> Vec<run::Property> {
-    vec![c04::property()]
+    vec![c02::property(), c04::property(), c09::property(), c15::property()]
 }
 
 fn main() {
